@@ -1,6 +1,8 @@
 --------------------------- MODULE Trace_HTTPSiblings ---------------------------
 (* C18: two SimpleHTTP instances constructed from the same interceptor slice; every step names its instance.  Each instance has its
-   own registration list (starting from the constructor's list): HTTPChain!Judge and HTTPChain!NextIcs applied per instance.       *)
+   own registration list (starting from the constructor's list): HTTPChain!Judge and HTTPChain!NextIcs applied per instance.
+   how = "one-slice" | "NewSimpleHTTP" | "NewSimpleAPI" (default-constructed instances, empty list).  part = "nested": one request whose interceptor 9
+   sends a nested request through the same instance (HTTPChain!JudgeNested; nestedErr: the nested request failed).                    *)
 EXTENDS HTTPChain, Json, IOUtils
 TraceS == ndJsonDeserialize(IOEnv.VERIF_TRACE)
 RECURSIVE Fold(_, _, _, _)
@@ -15,7 +17,9 @@ VARIABLES ls, nbads
 InitS == ls = 1 /\ nbads = 0
 NextS == /\ ls <= Len(TraceS) /\ nbads < 60
          /\ ls' = ls + 1
-         /\ LET bad == Fold(TraceS[ls].steps, 1, TraceS[ls].init, TraceS[ls].init) IN
+         /\ LET bad == IF TraceS[ls].part = "nested"
+                          THEN (IF JudgeNested(TraceS[ls].init, TraceS[ls].steps[1].o) /\ ~TraceS[ls].nestedErr THEN 0 ELSE 1)
+                          ELSE Fold(TraceS[ls].steps, 1, TraceS[ls].init, TraceS[ls].init) IN
             IF bad = 0 THEN nbads' = nbads ELSE PrintT(<<"MISMATCH", ls, bad>>) /\ nbads' = nbads + 1
 SpecS == InitS /\ [][NextS]_<<ls, nbads>>
 ConsumedS == PrintT(<<"CONSUMED", TLCGet("stats").diameter - 1, Len(TraceS)>>)
